@@ -1826,6 +1826,9 @@ func (b *Block) setExportedVars() (err error) {
 		return fmt.Errorf("block has 0 labels, which is not allowed")
 	}
 
+	if gx == 0 || gy == 0 || gz == 0 {
+		return fmt.Errorf("block has a %d x %d x %d grid of sub-blocks, which holds no voxels", gx, gy, gz)
+	}
 	if gx > MaxSubBlockSize || gy > MaxSubBlockSize || gz > MaxSubBlockSize {
 		return fmt.Errorf("%d x %d x %d sub-blocks exceed max dimension of %d voxels (%d sub-blocks)", gx, gy, gz, MaxBlockSize, MaxSubBlockSize)
 	}
